@@ -42,7 +42,8 @@ CHECKS = {
              'numbers and symbolic coordinates (all in-range triples, all '
              '2^64 words in the decode direction); independent packing '
              'reference; single switch-over checked with two symbolic '
-             'versions.',
+             'versions; one context object re-targeted across the layout '
+             'changes.',
         note='Trusted: struct/BytesIO models, symbolic-key view of '
              'PROTOCOL_VERSION_INDICES, z3.'),
     'C06': dict(
@@ -50,7 +51,9 @@ CHECKS = {
              'symbolic protocol version over the 250 supported numbers: each '
              'path is a class of versions with concrete ids; totality, '
              'non-negativity, injectivity and the reactor dict are checked '
-             'per path; colliding classes are enumerated per version.',
+             'per path; colliding classes are enumerated per version; '
+             'order-of-events instances build the table for another '
+             'symbolic version first.',
         note='Trusted: symbolic-key view of PROTOCOL_VERSION_INDICES, z3. '
              '9 genuine collisions at supported snapshot versions are listed '
              'as known findings.'),
@@ -250,8 +253,12 @@ def main():
                               'counterexample'}],
         'checks': checks,
         'not_applicable': sorted(na, key=lambda d: d['property_id']),
-        'notes': 'See DESIGN.md.  known_findings.json lists genuine defects '
-                 '(known / fixed).',
+        'notes': 'See DESIGN.md (section 10 = as built).  known_findings.json '
+                 'lists genuine defects (known / fixed).  Every check also '
+                 're-decides one exported query per instance with z3 4.8.12 '
+                 'and cvc5 1.0.3, replays path witnesses on the unmodelled '
+                 'code, and contains sentinel oracles that must be refuted.  '
+                 'seeded/ holds 72 seeded changes with what detects them.',
     }
     with open(os.path.join(ROOT, 'MANIFEST.json'), 'w') as f:
         json.dump(man, f, indent=1)
